@@ -39,6 +39,10 @@ pub struct ExecShared {
     pub gates: Vec<GateInfo>,
     pub notified: Vec<bool>,
     pub alive: Vec<bool>,
+    /// F-waker: current waker generation per task; a wake-up through a waker of an older generation is ignored (the Future
+    /// contract only requires the waker of the MOST RECENT poll to be honoured)
+    pub gen: Vec<u32>,
+    pub stale_wakes: u64,
     pub spawn_queue: Vec<Spawned>,
     pub current: u32,
     pub active: bool,
@@ -48,6 +52,8 @@ pub static EXEC: Mutex<ExecShared> = Mutex::new(ExecShared {
     gates: Vec::new(),
     notified: Vec::new(),
     alive: Vec::new(),
+    gen: Vec::new(),
+    stale_wakes: 0,
     spawn_queue: Vec::new(),
     current: 0,
     active: false,
@@ -63,6 +69,7 @@ pub fn current_task() -> u32 {
 
 struct TaskWaker {
     id: u32,
+    gen: u32,
 }
 impl Wake for TaskWaker {
     fn wake(self: Arc<Self>) {
@@ -71,7 +78,11 @@ impl Wake for TaskWaker {
     fn wake_by_ref(self: &Arc<Self>) {
         let mut e = ex();
         if (self.id as usize) < e.notified.len() {
-            e.notified[self.id as usize] = true;
+            if e.gen[self.id as usize] == self.gen {
+                e.notified[self.id as usize] = true;
+            } else {
+                e.stale_wakes += 1;
+            }
         }
     }
 }
@@ -226,12 +237,19 @@ impl std::error::Error for JoinError {}
 struct Slot<T> {
     result: Option<Result<T, JoinError>>,
     waker: Option<Waker>,
+    finished: bool,
 }
 
 pub struct JoinHandle<T> {
     slot: Arc<Mutex<Slot<T>>>,
 }
 impl<T> Unpin for JoinHandle<T> {}
+impl<T> JoinHandle<T> {
+    /// as tokio: true once the task has completed (its output may not have been taken yet)
+    pub fn is_finished(&self) -> bool {
+        self.slot.lock().unwrap_or_else(|e| e.into_inner()).finished
+    }
+}
 
 impl<T> Future for JoinHandle<T> {
     type Output = Result<T, JoinError>;
@@ -250,6 +268,7 @@ fn slot_set<T>(slot: &Arc<Mutex<Slot<T>>>, r: Result<T, JoinError>) {
     let w = {
         let mut s = slot.lock().unwrap_or_else(|e| e.into_inner());
         s.result = Some(r);
+        s.finished = true;
         s.waker.take()
     };
     if let Some(w) = w {
@@ -262,7 +281,7 @@ where
     F: Future + Send + 'static,
     F::Output: Send + 'static,
 {
-    let slot = Arc::new(Mutex::new(Slot { result: None, waker: None }));
+    let slot = Arc::new(Mutex::new(Slot { result: None, waker: None, finished: false }));
     let s1 = slot.clone();
     let s2 = slot.clone();
     let mut e = ex();
@@ -305,6 +324,7 @@ pub struct AsyncRun<R> {
     pub tasks: u32,
     pub max_pending_gates: u32,
     pub cancel_with_live_tasks: bool,
+    pub stale_wakes: u64,
 }
 
 pub const ASYNC_STEP_CAP: u64 = 20_000;
@@ -338,6 +358,8 @@ pub fn run_root<R: 'static>(mk: impl FnOnce() -> Pin<Box<dyn Future<Output = R> 
         e.gates.clear();
         e.notified.clear();
         e.alive.clear();
+        e.gen.clear();
+        e.stale_wakes = 0;
         e.spawn_queue.clear();
         e.current = 0;
         e.active = true;
@@ -361,6 +383,7 @@ pub fn run_root<R: 'static>(mk: impl FnOnce() -> Pin<Box<dyn Future<Output = R> 
                 tasks: 0,
                 max_pending_gates: 0,
                 cancel_with_live_tasks: false,
+                stale_wakes: 0,
             };
         }
     };
@@ -374,12 +397,14 @@ pub fn run_root<R: 'static>(mk: impl FnOnce() -> Pin<Box<dyn Future<Output = R> 
         *oc.borrow_mut() = Some(v);
     });
     let mut tasks: Vec<TaskRec> = Vec::new();
-    let mk_waker = |id: u32| Waker::from(Arc::new(TaskWaker { id }));
+    let mk_waker = |id: u32| Waker::from(Arc::new(TaskWaker { id, gen: 0 }));
+    let fresh_wakers = lock().plan.fresh_wakers;
     tasks.push(TaskRec { fut: Some(root_wrapped), on_panic: None, waker: mk_waker(0) });
     {
         let mut e = ex();
         e.notified.push(true);
         e.alive.push(true);
+        e.gen.push(0);
     }
 
     let mut end: Option<AsyncEnd> = None;
@@ -497,6 +522,15 @@ pub fn run_root<R: 'static>(mk: impl FnOnce() -> Pin<Box<dyn Future<Output = R> 
                     g.push(t, Ph::Poll, 0, t, spurious as u64);
                 }
                 let mut fut = tasks[t as usize].fut.take().expect("polling a finished task");
+                if fresh_wakers {
+                    // F-waker: every poll gets a new waker; older ones are dead from now on
+                    let g = {
+                        let mut e = ex();
+                        e.gen[t as usize] += 1;
+                        e.gen[t as usize]
+                    };
+                    tasks[t as usize].waker = Waker::from(Arc::new(TaskWaker { id: t, gen: g }));
+                }
                 let waker = tasks[t as usize].waker.clone();
                 let r = catch_unwind(AssertUnwindSafe(|| {
                     let mut cx = Context::from_waker(&waker);
@@ -543,6 +577,7 @@ pub fn run_root<R: 'static>(mk: impl FnOnce() -> Pin<Box<dyn Future<Output = R> 
                         let mut e = ex();
                         e.notified.push(true);
                         e.alive.push(true);
+                        e.gen.push(0);
                     }
                     lock().push(t, Ph::TSpawn, 0, id, 0);
                 }
@@ -592,7 +627,9 @@ pub fn run_root<R: 'static>(mk: impl FnOnce() -> Pin<Box<dyn Future<Output = R> 
         }
     }
     let value = out_cell.borrow_mut().take();
+    let stale_wakes = ex().stale_wakes;
     AsyncRun {
+        stale_wakes,
         end: end.unwrap_or(AsyncEnd::Hang),
         value,
         decisions: std::mem::take(&mut chooser.recorded),
